@@ -198,6 +198,44 @@ macro_rules! like_class {
     };
 }
 
+/// Fully symbolic variant (pattern bytes and both lengths symbolic): slower, used for the
+/// 4-byte thorough tier where enumerating 1555 patterns did not finish in 1800 s.
+macro_rules! like_class_sym {
+    ($name:ident, $class:expr, $n:expr, $desc:expr) => {
+        #[kani::proof]
+        #[kani::unwind(8)]
+        fn $name() {
+            let pb: [u8; $n] = kani::any();
+            let sb: [u8; $n] = kani::any();
+            let plen: usize = kani::any();
+            let slen: usize = kani::any();
+            kani::assume(plen <= $n && slen <= $n);
+            let mut i = 0;
+            while i < $n {
+                kani::assume(alpha(pb[i]) && alpha(sb[i]));
+                i += 1;
+            }
+            kani::assume(utf8_ok(&pb[..plen]) && utf8_ok(&sb[..slen]));
+            let p = unsafe { core::str::from_utf8_unchecked(&pb[..plen]) };
+            let s = &sb[..slen];
+            kani::assume(classify(p) == $class);
+            kani::cover!(plen == $n);
+            let want = like_ref(s, p.as_bytes());
+            let t = p.trim_matches('%').as_bytes();
+            let got = match $class {
+                Class::Eq => bytes_eq(s, p.as_bytes()),
+                Class::Prefix => starts_with(s, t),
+                Class::Suffix => ends_with(s, t),
+                Class::Contains => contains(s, t),
+                Class::None => want,
+            };
+            kani::cover!(want);
+            kani::cover!(!want);
+            assert!(got == want, $desc);
+        }
+    };
+}
+
 // @h name=c20_like_eq_rewrite props=C20,C02 tier=quick
 like_class!(c20_like_eq_rewrite, Class::Eq, 3, "LIKE rewritten to '=' accepts exactly the strings the pattern denotes");
 // @h name=c20_like_prefix_rewrite props=C20,C02 tier=quick
@@ -207,10 +245,10 @@ like_class!(c20_like_suffix_rewrite, Class::Suffix, 3, "LIKE rewritten to ends_w
 // @h name=c20_like_contains_rewrite props=C20,C02 tier=quick
 like_class!(c20_like_contains_rewrite, Class::Contains, 3, "LIKE rewritten to contains accepts exactly the strings the pattern denotes");
 // @h name=c20_like_eq_rewrite_4 props=C20,C02 tier=thorough
-like_class!(c20_like_eq_rewrite_4, Class::Eq, 4, "LIKE rewritten to '=' accepts exactly the strings the pattern denotes");
+like_class_sym!(c20_like_eq_rewrite_4, Class::Eq, 4, "LIKE rewritten to '=' accepts exactly the strings the pattern denotes");
 // @h name=c20_like_prefix_rewrite_4 props=C20,C02 tier=thorough
-like_class!(c20_like_prefix_rewrite_4, Class::Prefix, 4, "LIKE rewritten to starts_with accepts exactly the strings the pattern denotes");
+like_class_sym!(c20_like_prefix_rewrite_4, Class::Prefix, 4, "LIKE rewritten to starts_with accepts exactly the strings the pattern denotes");
 // @h name=c20_like_suffix_rewrite_4 props=C20,C02 tier=thorough
-like_class!(c20_like_suffix_rewrite_4, Class::Suffix, 4, "LIKE rewritten to ends_with accepts exactly the strings the pattern denotes");
+like_class_sym!(c20_like_suffix_rewrite_4, Class::Suffix, 4, "LIKE rewritten to ends_with accepts exactly the strings the pattern denotes");
 // @h name=c20_like_contains_rewrite_4 props=C20,C02 tier=thorough
-like_class!(c20_like_contains_rewrite_4, Class::Contains, 4, "LIKE rewritten to contains accepts exactly the strings the pattern denotes");
+like_class_sym!(c20_like_contains_rewrite_4, Class::Contains, 4, "LIKE rewritten to contains accepts exactly the strings the pattern denotes");
